@@ -15,9 +15,13 @@ pub enum Case {
     /// per sample: (objective value, class) with class 0 = infeasible, 1 = feasible for the remaining
     /// (active) constraints only, 2 = feasible for all constraints
     Best {
-        samples: Vec<(f64, u8)>,
+        samples: Vec<(X, u8)>,
         sense: i32,
         legacy: bool,
+        /// how the relaxed constraint got into the removed list: 0 = listed as removed with reason
+        /// "relaxed", 1 = listed as removed with the empty reason, 2 = a real `relax_constraint(id, "")`
+        #[serde(default)]
+        removed_how: u8,
         /// store objectives and constraint values grouped by VALUE (SampledValues::from_iter), as a
         /// conforming writer may, instead of by state
         #[serde(default)]
@@ -41,16 +45,31 @@ fn asmin_instance(objective: &Option<FnRep>, sense: i32) -> InstRep {
 
 const SAMPLE_IDS: [u64; 8] = [4, 0, 9, 1 << 33, 2, 17, 3, 100];
 
-fn best_instance(sense: i32) -> v1::Instance {
-    InstRep {
+fn best_instance(sense: i32, removed_how: u8) -> Result<v1::Instance, String> {
+    let relaxed = ConRep::new(1, LE_ZERO, Some(FnRep::Lin { terms: vec![(3, 1.0)], c: 0.0 }));
+    if removed_how == 2 {
+        let mut m = InstRep {
+            sense,
+            objective: Some(FnRep::Lin { terms: vec![(1, 1.0)], c: 0.0 }),
+            vars: vec![VarRep::new(1, KIND_CONTINUOUS, None), VarRep::new(2, KIND_CONTINUOUS, None), VarRep::new(3, KIND_CONTINUOUS, None)],
+            constraints: vec![ConRep::new(0, LE_ZERO, Some(FnRep::Lin { terms: vec![(2, 1.0)], c: 0.0 })), relaxed],
+            ..Default::default()
+        }
+        .to_msg();
+        return match sdk(|| m.relax_constraint(1, String::new(), Default::default()).map_err(|e| format!("{e:#}"))) {
+            Ok(Ok(())) => Ok(m),
+            Ok(Err(e)) | Err(e) => Err(e),
+        };
+    }
+    Ok(InstRep {
         sense,
         objective: Some(FnRep::Lin { terms: vec![(1, 1.0)], c: 0.0 }),
         vars: vec![VarRep::new(1, KIND_CONTINUOUS, None), VarRep::new(2, KIND_CONTINUOUS, None), VarRep::new(3, KIND_CONTINUOUS, None)],
         constraints: vec![ConRep::new(0, LE_ZERO, Some(FnRep::Lin { terms: vec![(2, 1.0)], c: 0.0 }))],
-        removed: vec![RemRep { constraint: ConRep::new(1, LE_ZERO, Some(FnRep::Lin { terms: vec![(3, 1.0)], c: 0.0 })), reason: "relaxed".into(), parameters: vec![] }],
+        removed: vec![RemRep { constraint: relaxed, reason: if removed_how == 0 { "relaxed".into() } else { String::new() }, parameters: vec![] }],
         ..Default::default()
     }
-    .to_msg()
+    .to_msg())
 }
 
 #[allow(deprecated)]
@@ -129,8 +148,13 @@ pub fn check_case(l: &mut Local, case: &Case) {
                 }
             }
         }
-        Case::Best { samples, sense, legacy, by_value } => {
-            let inst = best_instance(*sense);
+        Case::Best { samples, sense, legacy, by_value, removed_how } => {
+            let samples: Vec<(f64, u8)> = samples.iter().map(|s| (s.0 .0, s.1)).collect();
+            let samples = &samples;
+            let inst = match best_instance(*sense, *removed_how) {
+                Ok(i) => i,
+                Err(e) => return l.violation("best/relax_constraint-error", || json!(case), e),
+            };
             let mut ss_in = v1::Samples::default();
             for (k, (obj, class)) in samples.iter().enumerate() {
                 let st = mk_state(&[(1, *obj), (2, if *class == 0 { 1.0 } else { 0.0 }), (3, if *class == 2 { 0.0 } else { 1.0 })]);
@@ -167,6 +191,11 @@ pub fn check_case(l: &mut Local, case: &Case) {
                 (false, false) => "current",
                 (true, true) => "legacy+grouped-by-value",
                 (false, true) => "current+grouped-by-value",
+            };
+            let tag = match removed_how {
+                0 => tag.to_string(),
+                1 => format!("{tag}+empty-reason"),
+                _ => format!("{tag}+relaxed-with-empty-reason"),
             };
             if samples.len() >= 2 {
                 l.nontrivial += 1;
@@ -269,18 +298,27 @@ pub fn run(ctx: &Ctx) -> Finish {
             for _ in 0..k {
                 let d = code % 9;
                 code /= 9;
-                samples.push((values[d % 3], (d / 3) as u8));
+                samples.push((X(values[d % 3]), (d / 3) as u8));
             }
             l.states += 1;
             for sense in [SENSE_MIN, SENSE_MAX] {
                 for legacy in [false, true] {
-                    let case = Case::Best { samples: samples.clone(), sense, legacy, by_value: false };
+                    let case = Case::Best { samples: samples.clone(), sense, legacy, by_value: false, removed_how: 0 };
                     if k == 4 && legacy && ctx.want_sample((1 << 40) + idx as u64) {
                         l.samples.push(((1 << 40) + idx as u64, json!(case)));
                     }
                     check_case(l, &case);
                     if k <= 5 {
-                        check_case(l, &Case::Best { samples: samples.clone(), sense, legacy, by_value: true });
+                        check_case(l, &Case::Best { samples: samples.clone(), sense, legacy, by_value: true, removed_how: 0 });
+                    }
+                    if k <= 4 {
+                        // the relaxed constraint carries the empty reason (listed so / after a real relax_constraint)
+                        for removed_how in [1u8, 2] {
+                            check_case(l, &Case::Best { samples: samples.clone(), sense, legacy, by_value: false, removed_how });
+                        }
+                        // infinite objective values (an overflowing objective): still ordered, still selectable
+                        let ext: Vec<(X, u8)> = samples.iter().map(|s| (X(if s.0 .0 == values[0] { f64::NEG_INFINITY } else if s.0 .0 == values[2] { f64::INFINITY } else { s.0 .0 }), s.1)).collect();
+                        check_case(l, &Case::Best { samples: ext, sense, legacy, by_value: false, removed_how: 0 });
                     }
                 }
             }
@@ -294,12 +332,12 @@ pub fn run(ctx: &Ctx) -> Finish {
             for _ in 0..8 {
                 let d = code % 6;
                 code /= 6;
-                samples.push((values[1 + d % 2], (d / 2) as u8));
+                samples.push((X(values[1 + d % 2]), (d / 2) as u8));
             }
             l.states += 1;
             for sense in [SENSE_MIN, SENSE_MAX] {
                 for legacy in [false, true] {
-                    check_case(l, &Case::Best { samples: samples.clone(), sense, legacy, by_value: false });
+                    check_case(l, &Case::Best { samples: samples.clone(), sense, legacy, by_value: false, removed_how: 0 });
                 }
             }
         });
@@ -309,16 +347,16 @@ pub fn run(ctx: &Ctx) -> Finish {
             for k in 7..=8usize {
                 for sense in [SENSE_MIN, SENSE_MAX] {
                     for legacy in [false, true] {
-                        check_case(l, &Case::Best { samples: vec![(2.0, 0); k], sense, legacy, by_value: false });
-                        check_case(l, &Case::Best { samples: vec![(2.0, 2); k], sense, legacy, by_value: true });
+                        check_case(l, &Case::Best { samples: vec![(X(2.0), 0); k], sense, legacy, by_value: false, removed_how: 0 });
+                        check_case(l, &Case::Best { samples: vec![(X(2.0), 2); k], sense, legacy, by_value: true, removed_how: 0 });
                         for pos in 0..k {
                             for class in [1u8, 2] {
-                                let mut s: Vec<(f64, u8)> = (0..k).map(|i| (values[i % 3], 0)).collect();
+                                let mut s: Vec<(X, u8)> = (0..k).map(|i| (X(values[i % 3]), 0)).collect();
                                 s[pos].1 = class;
-                                check_case(l, &Case::Best { samples: s, sense, legacy, by_value: pos % 2 == 0 });
-                                let mut s: Vec<(f64, u8)> = (0..k).map(|i| (values[(i + pos) % 3], 2)).collect();
-                                s[pos] = (if sense == SENSE_MAX { 7.0 } else { -7.0 }, class);
-                                check_case(l, &Case::Best { samples: s, sense, legacy, by_value: pos % 2 == 0 });
+                                check_case(l, &Case::Best { samples: s, sense, legacy, by_value: pos % 2 == 0, removed_how: 0 });
+                                let mut s: Vec<(X, u8)> = (0..k).map(|i| (X(values[(i + pos) % 3]), 2)).collect();
+                                s[pos] = (X(if sense == SENSE_MAX { 7.0 } else { -7.0 }), class);
+                                check_case(l, &Case::Best { samples: s, sense, legacy, by_value: pos % 2 == 0, removed_how: 0 });
                             }
                         }
                     }
@@ -329,7 +367,7 @@ pub fn run(ctx: &Ctx) -> Finish {
     ctx.assume("Legacy sample sets are produced by encoding a message whose tag 4 holds remaining-constraint feasibility, tag 6 all-constraint feasibility and tag 7 is absent (what releases before feasible_relaxed wrote) and decoding it with prost; the wire tags themselves are C07's subject.");
     Finish {
         level: "model_checking",
-        rule: "(a) every objective of the medium representation family x both senses through as_minimization_problem (once and twice): sense, objective == +-f as polynomials, all other fields untouched, idempotent, identical ranking of all pairs of grid states; (b) every sample set with k samples, each sample assigned one of 3 objective values (ties arise) and one of 3 feasibility classes, built by the real evaluate_samples, x both senses x {current, legacy} encodings: returned id is feasible in the requested sense and unbeaten under the set's sense, Err iff no sample is feasible, feasible id sets and best Solutions agree; non-trivial = maximisation instance / at least two samples".into(),
+        rule: "(a) every objective of the medium representation family x both senses through as_minimization_problem (once and twice): sense, objective == +-f as polynomials, all other fields untouched, idempotent, identical ranking of all pairs of grid states; (b) every sample set with k samples, each sample assigned one of 3 objective values (ties arise) and one of 3 feasibility classes, built by the real evaluate_samples, x both senses x {current, legacy} encodings (k <= 4 also with objective values -inf / +inf, and with the relaxed constraint carrying the empty reason, listed so or after a real relax_constraint(id, \"\")): returned id is feasible in the requested sense and unbeaten under the set's sense, Err iff no sample is feasible, feasible id sets and best Solutions agree; non-trivial = maximisation instance / at least two samples".into(),
         bounds: json!({"k_full": kmax, "k8": if t { "two objective values, all classes" } else { "structured" }, "objective_values": values, "classes": ["infeasible","remaining-only","all"]}),
         exhaustive: true,
     }
